@@ -161,6 +161,9 @@ class State:
         pinned = False
         for c in self.pc:
             if z3.is_eq(c) and (z3.eq(c.arg(0), e) or z3.eq(c.arg(1), e)):
+                other = c.arg(1) if z3.eq(c.arg(0), e) else c.arg(0)
+                if z3.is_int_value(other):
+                    return other.as_long()      # a path fact states e == constant
                 pinned = True
                 break
         if not pinned:
